@@ -3,3 +3,4 @@ import GBExtracted.Forms
 import GBExtracted.Pipelines
 import GBExtracted.Effects
 import GBExtracted.Dispatch
+import GBExtracted.Formulas
